@@ -84,7 +84,17 @@ def run_case(case):
             if not tls.suite_valid_for(sp, v):
                 continue
             for hs in ([True, False] if v == tls.TLS13 else [True]):
-                for draw in range(case.get("draws", DRAWS)):
+                draws = list(range(case.get("draws", DRAWS)))
+                if v != tls.TLS13:
+                    # one more draw, searched for: secrets and randoms whose key block STARTS WITH A ZERO BYTE (a data value that
+                    # steers integer-based implementations of the PRF's final XOR; one connection in 256 has it)
+                    for k in range(100, 4000):
+                        c0 = scen.tls_conn({"version": v, "suite": code, "hs_secrets": hs, "history": [("c", 3), ("s", 3)]}, seed, key=("draw", k))
+                        first = c0.km["client_key"] if sp.aead else c0.km["client_mac"]
+                        if first[0] == 0:
+                            draws.append(k)
+                            break
+                for draw in draws:
                     scn = {"version": v, "suite": code, "hs_secrets": hs, "history": [("c", 3), ("s", 3)]}
                     conn = scen.tls_conn(scn, seed, key=("draw", draw))
                     ends = cap.Ends(1)
